@@ -365,6 +365,13 @@ int run_ops_file(const char *path, FILE *out)
             reent = atoi(line + 3);
         } else if (!strcmp(line, "q")) {
             snap_t tmp; snap_all(in->rds, &tmp); snap_all(in->rds, &tmp);
+            /* the stateless lookup functions belong to the API too (C19: no hidden mutable state behind them) */
+            { rdsparser_pty_t pty = rdsparser_get_pty(in->rds); rdsparser_country_t c = rdsparser_get_country(in->rds);
+              volatile const char *sink;
+              sink = rdsparser_pty_lookup_name(pty, false); sink = rdsparser_pty_lookup_short(pty, true);
+              sink = rdsparser_pty_lookup_long(pty, false); sink = rdsparser_country_lookup_name(c);
+              sink = rdsparser_country_lookup_iso(c); sink = rdsparser_country_lookup_iso((rdsparser_country_t)(k % 221));
+              (void)sink; }
             /* out-of-range RT flag arguments select buffer B (documented `!!flag`) */
             if (rdsparser_get_rt(in->rds, 2) != rdsparser_get_rt(in->rds, 1) ||
                 rdsparser_get_rt(in->rds, 255) != rdsparser_get_rt(in->rds, 1)) fprintf(OUT, "X get_rt flag\n");
